@@ -100,6 +100,7 @@ def _all_assign(fn_chain, pat, base='state'):
             if not pmatch(ctx, pat, r):
                 return False, '`%s.%s` is not assigned a value of the form %r' % (base, '.'.join(fn_chain), pat), ln
         return True, '', rhs[0][1]
+    chk.positive = True
     return chk
 
 
@@ -112,13 +113,14 @@ def _struct_init(adt, field, pat):
             if not pmatch(ctx, pat, e):
                 return False, 'field `%s` of `%s` is not initialised as %r' % (field, adt.split('::')[-1], pat), ln
         return True, '', inits[0][1]
+    chk.positive = True
     return chk
 
 
 def _let(name, pat, every=True):
     def chk(ctx, hfn):
         inits = ctx.inits.get(name, [])
-        if not inits and ctx.names is not None and name not in ctx.names:
+        if not inits:
             # the local was renamed: some binding of the function must have the required form
             for nm, its in ctx.inits.items():
                 for i in its:
@@ -130,6 +132,7 @@ def _let(name, pat, every=True):
         oks = [pmatch(ctx, pat, i) for i in inits]
         ok = all(oks) if every else any(oks)
         return ok, '' if ok else '`%s` is not bound to a value of the form %r' % (name, pat), inits[0].get('ln')
+    chk.positive = True
     return chk
 
 
@@ -148,6 +151,7 @@ def _contains(pat, what):
     def chk(ctx, hfn):
         hits = find(ctx, hfn['body'], pat)
         return bool(hits), '' if hits else '%s not found (expected %r)' % (what, pat), hits[0][0].get('ln') if hits else None
+    chk.positive = True
     return chk
 
 
@@ -514,7 +518,19 @@ row('C20', None, 'const:MAX_LEN', _const(EVENT + "SliderEventsIter::<'ticks_buf>
 row('C20', None, 'const:TAIL_LENIENCY', _const(EVENT + "SliderEventsIter::<'ticks_buf>::TAIL_LENIENCY", -36.0))
 SEI = EVENT + "SliderEventsIter::<'ticks_buf>::new"
 row('C20', SEI, 'len', _let('len', M('min', K(100000.0), L('total_dist'))))
-row('C20', SEI, 'tick_dist-clamp', _all_assign([], CLAMP(L('tick_dist'), K(0.0), L('len')), base='tick_dist'))
+def _tick_dist_clamped(ctx, hfn):
+    # the stored tick distance is the parameter clamped to [0, len]: either the parameter is
+    # re-assigned before it is stored, or the stored value is (a let bound to) the clamp
+    pat = CLAMP(L('tick_dist'), K(0.0), L('len'))
+    a = _all_assign([], pat, base='tick_dist')(ctx, hfn)
+    if a[0]:
+        return a
+    b = _struct_init(EVENT + 'SliderEventsIter', 'tick_dist', pat)(ctx, hfn)
+    return b if b[0] else a
+
+
+_tick_dist_clamped.positive = True
+row('C20', SEI, 'tick_dist-clamp', _tick_dist_clamped)
 row('C20', SEI, 'min_dist_from_end',
     _struct_init(EVENT + 'SliderEventsIter', 'min_dist_from_end', BIN('Mul', L('velocity'), K(10.0), commutative=True)))
 row('C20', SEI, 'initial-state', _struct_init(EVENT + 'SliderEventsIter', 'state', P('SliderEventsIterState::Head')))
@@ -613,6 +629,27 @@ row('C20', REPT, 'repeat:progress',
 row('C20', REPT, 'repeat:span', _struct_init(EVENT + 'SliderEvent', 'span_idx', L('span')))
 
 
+def local_callees(facts, hfn, depth=2, seen=None):
+    """crate-local functions called (transitively, bounded) from hfn, in call order"""
+    seen = seen if seen is not None else {hfn['path']}
+    res = []
+
+    def visit(n, anc):
+        d = None
+        if n.get('k') == 'call' and n['f'].get('k') == 'path':
+            d = n['f'].get('def')
+        elif n.get('k') == 'mcall':
+            d = n.get('def')
+        if d and d not in seen and dict.__contains__(facts.hir, d):
+            seen.add(d)
+            res.append(facts.hir[d])
+    H.walk(hfn['body'], visit)
+    if depth > 1:
+        for h2 in list(res):
+            res.extend(local_callees(facts, h2, depth - 1, seen))
+    return res
+
+
 def run(facts, out, props=None):
     n = 0
     for r in ROWS:
@@ -631,6 +668,14 @@ def run(facts, out, props=None):
             continue
         ctx = Ctx(facts, H.binding_inits(hfn), hfn)
         ok, why, ln = r.check(ctx, hfn)
+        if not ok and getattr(r.check, 'positive', False):
+            # the code the row describes may have been moved into a private helper of this function
+            for h2 in local_callees(facts, hfn):
+                c2 = Ctx(facts, H.binding_inits(h2), h2)
+                ok2, _w2, ln2 = r.check(c2, h2)
+                if ok2:
+                    ok, why, ln = True, '', None
+                    break
         b = facts.body(r.fn)
         file = b.file if b else 'src'
         out.add(rule, r.fn, r.label, '%s:%s' % (file, ln if ln else (b.line if b else 0)), ok, why, ordinal=False)
